@@ -32,6 +32,7 @@ fn psbt_flow(cfg: &RunCfg, rep: &mut Report, world: &World, i: u64) {
     for pass in 0..2 {
         let mut psbt = fresh_psbt(&s);
         let mut signers: Vec<std::collections::BTreeSet<usize>> = vec![];
+        let mut known_pre: Vec<std::collections::BTreeSet<usize>> = vec![];
         let mut ok = true;
         for k in 0..n {
             if !matches!(apply(world, &s, &mut psbt, &Op::Update(k)), Outcome::Ok) {
@@ -47,9 +48,16 @@ fn psbt_flow(cfg: &RunCfg, rep: &mut Report, world: &World, i: u64) {
                 }
             }
             signers.push(set);
+            let mut pset = std::collections::BTreeSet::new();
             for p in s.inputs[k].case.pre_ids() {
-                apply(world, &s, &mut psbt, &Op::AddPre(k, p));
+                // in the subset pass some preimages are not known either (malleable and non-malleable
+                // satisfaction then part ways: a third party may know what the signer does not)
+                if pass == 0 || rng.chance(2, 3) {
+                    pset.insert(p);
+                    apply(world, &s, &mut psbt, &Op::AddPre(k, p));
+                }
             }
+            known_pre.push(pset);
         }
         if !ok {
             return;
@@ -63,7 +71,7 @@ fn psbt_flow(cfg: &RunCfg, rep: &mut Report, world: &World, i: u64) {
             let spend = Spend { tx: s.tx.clone(), prevouts: s.prevouts.clone(), idx: k };
             let mut assets = Assets::new(world, &spend, ip.target.ecdsa.clone());
             assets.keys.extend(signers[k].iter().cloned());
-            assets.pre.extend(ip.case.pre_ids());
+            assets.pre.extend(known_pre[k].iter().cloned());
             for mall in [true, false] {
                 let direct = guarded(std::panic::AssertUnwindSafe(|| {
                     let sat = satisfier(&assets, &ip.target);
@@ -97,7 +105,7 @@ fn psbt_flow(cfg: &RunCfg, rep: &mut Report, world: &World, i: u64) {
                         i,
                         format!("C02:refused-but-satisfiable:finalize_inp{}:{:?}{}", if mall { "_mall" } else { "" }, ip.case.kind, if pass == 1 { ":subset" } else { "" }),
                         format!(
-                            "input {} = {} carries the signatures of keys {:?} and every preimage; get_satisfaction{} with the same signatures yields a witness that verifies under STANDARD (scriptSig={} witness=[{}]), but finalize_inp{}_mut fails: {} (tx version {}, nLockTime {}, nSequence {:#x})",
+                            "input {} = {} carries the signatures of keys {:?} and the preimages it knows; get_satisfaction{} with the same signatures yields a witness that verifies under STANDARD (scriptSig={} witness=[{}]), but finalize_inp{}_mut fails: {} (tx version {}, nLockTime {}, nSequence {:#x})",
                             k, ip.case.desc, signers[k], if mall { "_mall" } else { "" }, hex(ss.as_bytes()), w.iter().map(|x| hex(x)).collect::<Vec<_>>().join(","), if mall { "_mall" } else { "" }, e,
                             s.tx.version.0, s.tx.lock_time.to_consensus_u32(), s.tx.input[k].sequence.0
                         ),
